@@ -16,6 +16,7 @@ from mc.runner import Result
 
 PROPERTY = "C06"
 LEVEL = "model_checking"
+TECHNIQUE = "bounded exhaustive enumeration of tie/NaN placements x chunkings x tree depths against global-position reference"
 ENGINE = "E1"
 RULE = (
     "state = (reduction, dtype, label tuple over {0,1,NaN}^n, chunking composition, method, split_every, batch blocks, "
